@@ -4,6 +4,9 @@ CONSTANTS
   MaxSize = 3
   ForkAt = 2
   Proofs = {"correct", "othersizes", "truncated", "empty"}
+  Aliases = {"bits", "nl", "nopad", "urlsafe", "space"}
+  CoverAliases = {"bits", "nl", "nopad"}
+  CoverFaultProofs = {"correct", "empty"}
   Depth = 2
 INIT Init
 NEXT CoverNext
